@@ -165,4 +165,6 @@ func (tn *testNode) refreshCoins() error {
 	return nil
 }
 
-func ctypesOutPoint(h common.Uint256, i uint16) ctypes.OutPoint { return ctypes.OutPoint{TxID: h, Index: i} }
+func ctypesOutPoint(h common.Uint256, i uint16) ctypes.OutPoint {
+	return ctypes.OutPoint{TxID: h, Index: i}
+}
